@@ -280,6 +280,7 @@ pub fn check_failure(b: &Bound, which: &str) -> Option<String> {
     build_result_archive(HashMap::from([("p".to_string(), b.mk_set_in(&g1, &unit))]), e.to_str().unwrap(), b.bn.to_string().as_str(), vec![]).ok()?;
     let (ms, fs, es) = (m.to_str().unwrap().to_string(), f.to_str().unwrap().to_string(), e.to_str().unwrap().to_string());
     let missing = dir.path().join("nope.aeon").to_str().unwrap().to_string();
+    let mut expected_formulae: Option<usize> = None;
     let args: Vec<String> = match which {
         "missing model" => vec![missing, fs],
         "corrupt model" => {
@@ -326,6 +327,32 @@ pub fn check_failure(b: &Bound, which: &str) -> Option<String> {
             std::fs::write(&f, "# nothing\n\n").ok()?;
             vec![ms, fs]
         }
+        // formula files that cannot be read completely: the tool must either report that or evaluate
+        // every formula of the file - never a silent prefix
+        "formula file with a non-UTF-8 byte in a comment" => {
+            std::fs::write(&f, b"EF a\n# caf\xe9 notation\nAG b\nEX a\n").ok()?;
+            expected_formulae = Some(3);
+            vec![ms, fs]
+        }
+        "formula file with a non-UTF-8 byte in a formula" => {
+            std::fs::write(&f, b"EF a\nAG b\nEX \xff a\n").ok()?;
+            expected_formulae = Some(3);
+            vec![ms, fs]
+        }
+        "formula file with a non-UTF-8 byte in its first line" => {
+            std::fs::write(&f, b"# \xe9\nEF a\nAG b\n").ok()?;
+            expected_formulae = Some(2);
+            vec![ms, fs]
+        }
+        "formula path is a directory" => {
+            expected_formulae = Some(1);
+            vec![ms, dir.path().to_str().unwrap().to_string()]
+        }
+        "invalid formula after valid ones" => {
+            std::fs::write(&f, "EF a\nAG b\nEX (a &\n").ok()?;
+            expected_formulae = Some(3);
+            vec![ms, fs]
+        }
         _ => return None,
     };
     let argv: Vec<&str> = args.iter().map(|s| s.as_str()).collect();
@@ -338,6 +365,14 @@ pub fn check_failure(b: &Bound, which: &str) -> Option<String> {
     }
     if which != "empty formula file" && out.stdout.trim().is_empty() && out.stderr.trim().is_empty() {
         return Some(format!("{which}: nothing is reported"));
+    }
+    if let Some(n) = expected_formulae {
+        let text = format!("{}\n{}", cli::strip_ansi(&out.stdout), cli::strip_ansi(&out.stderr));
+        let blocks = text.lines().filter(|l| l.trim_start().starts_with("Formula:")).count();
+        let diagnostic = ["corrupted", "rror", "nvalid", "UTF-8", "annot", "ailed", "nexpected", "xpected", "directory"].iter().any(|w| text.contains(w));
+        if blocks < n && !diagnostic {
+            return Some(format!("{which}: the tool evaluates {blocks} of the {n} formulae of the file and reports no problem (output: {})", crate::report::truncate(&text, 300)));
+        }
     }
     None
 }
@@ -456,6 +491,7 @@ pub fn run(tier: &str) -> Result<Report, String> {
     let failures = [
         "missing model", "corrupt model", "model with unknown extension", "missing formula file", "invalid formula", "free variable", "unknown proposition", "wild-card without -e",
         "missing context label", "missing context archive", "context archive is not a zip", "wrong print option", "empty formula file",
+        "formula file with a non-UTF-8 byte in a comment", "formula file with a non-UTF-8 byte in a formula", "formula file with a non-UTF-8 byte in its first line", "formula path is a directory", "invalid formula after valid ones",
     ];
     let b = by_name(&nets, "con2");
     for w in failures {
@@ -467,7 +503,7 @@ pub fn run(tier: &str) -> Result<Report, String> {
     rep.set("failure_configurations", json!(failures));
     rep.sample(json!({"network": "con2", "format": "sbml", "layout": 6, "print": "exhaustive", "-o": true, "formulae": plain_lists[1]}));
     rep.sample(json!({"formula_file_layout_6": formula_file(&plain_lists[2], 6)}));
-    rep.rule = format!("the hctl-model-checker binary built from the working tree is executed on {which:?} x model format (aeon, bnet, sbml where the format reproduces the network) x {LAYOUTS} formula-file layouts (comments, blank lines, surrounding blanks/tabs, CRLF, no final newline, mixed) x 4 print options x with/without -o x 3 plain + 2 extended formula lists, plus 24 single-operator formula files (each unary / binary / hybrid operator and pattern in a file of its own) (context archive with labels p, d, dom_1 written for the k the tool derives), plus context archives written for k-1, k+1, k+2 and 13 failure configurations. Compared: order and text of Formula blocks, printed result/colour/state counts vs exact counts of the library's sets, exhaustive state listing, archive entry list, formulae.txt, every archived BDD vs model_check_multiple_(extended_)formulae_dirty; failures must produce a message and no crash. distinct_nontrivial = executed configurations");
+    rep.rule = format!("the hctl-model-checker binary built from the working tree is executed on {which:?} x model format (aeon, bnet, sbml where the format reproduces the network) x {LAYOUTS} formula-file layouts (comments, blank lines, surrounding blanks/tabs, CRLF, no final newline, mixed) x 4 print options x with/without -o x 3 plain + 2 extended formula lists, plus 24 single-operator formula files (each unary / binary / hybrid operator and pattern in a file of its own) (context archive with labels p, d, dom_1 written for the k the tool derives), plus context archives written for k-1, k+1, k+2 and 18 failure configurations (5 of them formula files that cannot be read or parsed completely: the tool must report a problem or evaluate every formula, never a silent prefix). Compared: order and text of Formula blocks, printed result/colour/state counts vs exact counts of the library's sets, exhaustive state listing, archive entry list, formulae.txt, every archived BDD vs model_check_multiple_(extended_)formulae_dirty; failures must produce a message and no crash. distinct_nontrivial = executed configurations");
     rep.assumptions.push("counts are compared with exact cardinalities computed from the point-wise read-back of the library's sets on valid colours".into());
     Ok(rep)
 }
